@@ -110,8 +110,9 @@ Proof. exact HashesUpdateProofs.update_latest_extends. Qed.
 Print Assumptions C06_peer_hashes_append_only_and_anchored.
 
 (* the hashes cached between two finalized check points: an accepted message only appends, makes the list reach the upper
-   check point exactly, and the hash stored for the check point block IS the finalized check point - nothing between two
-   check points is trusted on one peer's word (the gate added by the repair of the unanchored cached hashes) *)
+   check point exactly, and the hash stored for the check point block IS the finalized check point (the gate added by
+   the repair of the unanchored cached hashes).  The hashes BEFORE the check point block remain one peer's word: see the
+   refutation below (known finding C06-cached-interior-hashes-unverified). *)
 Theorem C06_cached_hashes_anchored_at_both_check_points :
   forall cn nn ccp ncp cached start parent hs cached' next,
     cn < start -> start <= nn -> HashesUpdate.len cached <= nn - cn ->
@@ -120,3 +121,21 @@ Theorem C06_cached_hashes_anchored_at_both_check_points :
     HashesUpdate.nthN cached' (nn - cn - 1) = Some ncp /\ (cached = [] -> start = cn + 1 /\ parent = ccp).
 Proof. exact HashesUpdateProofs.update_cached_extends. Qed.
 Print Assumptions C06_cached_hashes_anchored_at_both_check_points.
+
+(* KNOWN FINDING (KNOWN_FINDINGS.jsonl, class C06-cached-interior-hashes-unverified).  The statement "the cached filter
+   hashes of a range between two finalized check points are determined by the check points" is FALSE of the faithful model:
+   the handler can compare only the LAST hash of the range with the upper check point (the interior hashes could only be
+   checked against the filters, which arrive later and are themselves checked against these hashes).  Two lists with
+   different interiors and the genuine last hash are both accepted and cached from a single proven peer; block filters
+   that chain to a forged interior then move the filter progress up to the block before the check point.
+   Replayed on the implementation by op fh, case poison-0 (progress 0 -> 9 over forged filters). *)
+Theorem C06_cached_interior_hashes_refuted :
+  exists cn nn ccp ncp start parent hs hs' c c',
+    HashesUpdate.update_cached cn nn ccp ncp [] start parent hs = Ok (inr (c, None)) /\
+    HashesUpdate.update_cached cn nn ccp ncp [] start parent hs' = Ok (inr (c', None)) /\
+    HashesUpdate.nthN c 0 <> HashesUpdate.nthN c' 0.
+Proof.
+  exists 0, 3, 100, 103, 1, 100, [101; 102; 103], [7; 8; 103], [101; 102; 103], [7; 8; 103].
+  split; [vm_compute; reflexivity|]. split; [vm_compute; reflexivity|]. vm_compute. discriminate.
+Qed.
+Print Assumptions C06_cached_interior_hashes_refuted.
